@@ -5,6 +5,7 @@ go 1.22.1
 require (
 	github.com/IrineSistiana/bytespool v0.0.0-20240303022030-cfcf97e7141f
 	github.com/IrineSistiana/connpool v0.0.0-20240326131245-897b52e59cfc
+	github.com/IrineSistiana/gopool v0.0.0-20240118084800-c21759e56cf2
 	github.com/klauspost/compress v1.17.7
 	github.com/maypok86/otter v1.2.0
 	github.com/miekg/dns v1.1.58
@@ -27,7 +28,6 @@ require (
 )
 
 require (
-	github.com/IrineSistiana/gopool v0.0.0-20240118084800-c21759e56cf2 // indirect
 	github.com/andybalholm/brotli v1.1.0 // indirect
 	github.com/beorn7/perks v1.0.1 // indirect
 	github.com/cespare/xxhash/v2 v2.2.0 // indirect
